@@ -336,7 +336,7 @@ def live_directory(rep, doc, path):
     for f in fails:
         groups.setdefault((f["clause"], MCC3_FAMILY.get(f["col"], f["col"])), []).append(f)
     for (clause, col), fs in groups.items():
-        if len(fs) <= 8 or clause in ("NoShared", "Abundance", "BurnChain", "ElementsIndexed"):
+        if len(fs) <= 8 or clause in ("Abundance", "BurnChain", "ElementsIndexed"):
             for f in fs:
                 rep.violation(nuc_key(f, shared), "nuclide directory: clause %s fails for %s (%s): %s" % (f["clause"], f["who"], f["col"], f["detail"]),
                               {"direction": "table", "part": "nuc", "failure": f})
